@@ -814,7 +814,17 @@ func TestGocvReplay(t *testing.T) {
 						case "err":
 							return nil, errors.New("boom")
 						case "panic":
-							panic("boom")
+							// the recovered value may be of any type
+							switch (idx + code) % 4 {
+							case 0:
+								panic("boom")
+							case 1:
+								panic(errors.New("boom"))
+							case 2:
+								panic(42)
+							default:
+								panic(struct{ A []byte }{A: []byte("boom")})
+							}
 						}
 						return &payloads.ActivateResponsePayload{UniqueIdentifier: req.UniqueIdentifier}, nil
 					}))
@@ -1762,12 +1772,17 @@ func TestGocvReplay(t *testing.T) {
 			var m kmip.ResponseMessage
 			_ = c.dec(doc, &m)
 		}
+		// the generic container reads whatever type the document announces
+		var v ttlv.Value
+		_ = c.dec(doc, &v)
 	}
 	corpus := map[string][]string{
 		"json": {"true", "false", "null", "1", "\"x\"", "[]", "[1]", "{}", "{\"tag\":1}", "{\"tag\":\"RequestMessage\",\"type\":\"Nope\",\"value\":[]}",
-			"{\"tag\":\"RequestMessage\",\"type\":7,\"value\":1}", "{\"tag\":\"RequestMessage\",\"value\":[true]}", "{\"tag\":\"RequestMessage\",\"value\":[{\"tag\":\"RequestHeader\",\"type\":\"IBteger\",\"value\":4}]}"},
+			"{\"tag\":\"RequestMessage\",\"type\":7,\"value\":1}", "{\"tag\":\"RequestMessage\",\"value\":[true]}", "{\"tag\":\"RequestMessage\",\"value\":[{\"tag\":\"RequestHeader\",\"type\":\"IBteger\",\"value\":4}]}",
+			"{\"tag\":\"Y\",\"type\":\"BigInteger\",\"value\":\"0x\"}", "{\"tag\":\"Y\",\"type\":\"BigInteger\",\"value\":\"\"}", "{\"tag\":\"Y\",\"type\":\"ByteString\",\"value\":\"\"}", "{\"tag\":\"Y\",\"type\":\"LongInteger\",\"value\":\"0x\"}", "{\"tag\":\"Y\",\"type\":\"Integer\",\"value\":\"\"}", "{\"tag\":\"Y\",\"type\":\"Enumeration\",\"value\":\"0x\"}", "{\"tag\":\"Y\",\"type\":\"DateTime\",\"value\":\"\"}", "{\"tag\":\"Y\",\"type\":\"Interval\",\"value\":\"\"}"},
 		"xml": {"", "x", "<a/>", "<RequestMessage type=\"Nope\"/>", "<RequestMessage><RequestHeader type=\"IBteger\" value=\"1\"/></RequestMessage>", "<RequestMessage><RequestHeader></RequestMessage>",
-			"<ResponseMessage type=\"\" value=\"\"/>"},
+			"<ResponseMessage type=\"\" value=\"\"/>",
+			"<Y type=\"BigInteger\" value=\"\"/>", "<Y type=\"BigInteger\"/>", "<Y type=\"ByteString\" value=\"\"/>", "<Y type=\"Integer\" value=\"\"/>", "<Y type=\"LongInteger\" value=\"\"/>", "<Y type=\"Enumeration\" value=\"\"/>", "<Y type=\"DateTime\" value=\"\"/>", "<Y type=\"Interval\" value=\"\"/>", "<Y type=\"Boolean\" value=\"\"/>"},
 	}
 	for _, c := range codecs {
 		for _, doc := range corpus[c.name] {
